@@ -34,7 +34,7 @@ RULE = ("random pipelines: builder Probe/PlaneWave x potential Atoms/FrozenPhono
 CLAUSES = ["lazy-vs-eager:values", "lazy-vs-eager:axes", "lazy-vs-eager:type", "lazy-vs-eager:shape", "same-outcome",
            "threaded-vs-synchronous:values"]
 QUICK = dict(n=36, time=50)
-THOROUGH = dict(n=1200, time=540, shards=16)
+THOROUGH = dict(n=2390, time=480, shards=16)
 
 _seen_chunkings = set()
 _seen_orders = set()
